@@ -49,7 +49,8 @@ fn verifiers(mode: &str) -> Vec<(&'static str, Vf)> {
              ("SignedMessage::from_bytes+verify", |s, m, p| { let sm = [&s[..], m].concat(); match SignedMessage::<StackByteArray<64>, Vec<u8>>::from_bytes(&sm) { Ok(x) => x.verify(p).is_ok(), Err(_) => false } })]
     } else {
         vec![("crypto_sign_final_verify", |s, m, p| { let mut st = csg::crypto_sign_init(); csg::crypto_sign_update(&mut st, m); csg::crypto_sign_final_verify(st, s, p).is_ok() }),
-             ("IncrementalSigner::verify", |s, m, p| { let mut st = IncrementalSigner::new(); st.update(&m.to_vec()); st.verify(s, p).is_ok() })]
+             ("IncrementalSigner::verify", |s, m, p| { let mut st = IncrementalSigner::new(); st.update(&m.to_vec()); st.verify(s, p).is_ok() }),
+             ("IncrementalSigner::default + verify", |s, m, p| { let mut st = IncrementalSigner::default(); st.update(&m.to_vec()); st.verify(s, p).is_ok() })]
     }
 }
 
@@ -191,6 +192,8 @@ pub fn cmd_sign(args: &[String]) {
                 } else {
                     got.push(("crypto_sign_final_create", { let mut st = csg::crypto_sign_init(); csg::crypto_sign_update(&mut st, &msg); let mut s = [0xC3u8; 64]; csg::crypto_sign_final_create(st, &mut s, &sk).map(|_| s.to_vec()).map_err(|e| format!("{:?}", e)) }));
                     got.push(("IncrementalSigner::finalize", { let mut st = IncrementalSigner::new(); st.update(&msg); st.finalize::<Vec<u8>, _>(&sk).map_err(|e| format!("{:?}", e)) }));
+                    // the same object obtained through its trait implementations
+                    got.push(("IncrementalSigner::default + finalize", { let mut st = IncrementalSigner::default(); st.update(&msg); st.finalize::<Vec<u8>, _>(&sk).map_err(|e| format!("{:?}", e)) }));
                 }
                 for (name, g) in got {
                     rep.evaluations += 1;
